@@ -771,7 +771,7 @@ fn plain(t: &str) -> bool {
 const ATOMS: &[&str] = &[
     "a", "b1", "Foo", "IF", "if", "THEN", "END_IF", "VAR", "END_VAR", "MOD", "NOT", "AND", "OR", "AT", "TRUE", "INT", "INT#", "T#", "D#",
     "TOD#", "1", "16", "5", "30", "1.5", "1.0E3", "16#FF", "2#1", "FF", "s", "ms", "T#5s", "T#1h30m", "D#2024-01-15", "TOD#12:30:00",
-    "DT#2024-01-15-12:30:00", "%IX0.5", "%MW1", "'s'", "'a,b'", "'a:=b'", "'a  b'", "\"w\"", ";", ":", ",", ".", "..", "(", ")", "[", "]", "#", "^",
+    "DT#2024-01-15-12:30:00", "%IX0.5", "%MW1", "'s'", "'a,b'", "'a:=b'", "'a  b'", "\"w\"", "'i$'s: x'", "\"q$\": y\"", ";", ":", ",", ".", "..", "(", ")", "[", "]", "#", "^",
     "@", ":=", "=>", "?=", "=", "<>", "<", "<=", ">", ">=", "+", "-", "*", "/", "**", "&", "?", "$", "'", "\"", "{", "}", "%", "(*c*)",
     "/*c*/", "//c", "{p}", "(*", "*)", "/*", "*/", "\u{e9}",
 ];
@@ -872,7 +872,10 @@ impl<'a> Synth<'a> {
     fn lit(&mut self) -> String {
         ["0", "1", "42", "1_000", "16#FF", "2#1010", "1.5", "2.5E-3", "TRUE", "FALSE", "T#10ms", "T#1h30m", "TIME#5s", "D#2024-01-15",
          "TOD#12:30:00", "DT#2024-01-15-12:30:00", "INT#5", "INT#-3", "REAL#1.5", "'text'", "'a, b: c := d'", "'(* no comment *)'",
-         "'it$'s'", "\"wide, str\"", "Color#Red", "%IX0.1", "'two  blanks'"].choose(self.rng).unwrap().to_string()
+         "'it$'s'", "\"wide, str\"", "Color#Red", "%IX0.1", "'two  blanks'",
+         // escaped quotes FOLLOWED by text that looks like syntax: a scan that does not know the `$` escapes
+         // leaves the literal early and sees ':' ':=' ',' '(*' as tokens
+         "'can$'t open: retry'", "'$'': x := 1'", "\"say $\"hi$\": ok\"", "'a$'b, c$'d'", "'$'(* x *)$''", "'100$$: y'"].choose(self.rng).unwrap().to_string()
     }
     fn expr(&mut self, depth: u32) -> Vec<String> {
         let r = self.rng.gen_range(0..10);
@@ -1023,11 +1026,39 @@ impl<'a> Synth<'a> {
                 }
                 acc
             }));
-            if self.rng.gen_bool(0.4) {
+            let mut tricky = false;
+            if (ty.starts_with("STRING") || ty.starts_with("ARRAY")) && self.rng.gen_bool(0.5) {
+                // string initialisers whose text looks like syntax once an escaped quote is misread, on
+                // their own continuation lines (no declaration colon in front of them on that line)
+                const TRICKY: [&str; 8] = ["'can$'t open: retry'", "'$'': x := 1'", "\"say $\"hi$\": ok\"", "'a$'b, c$'d'", "'$'(* x *)$''", "'100$$: y'", "'plain: text'", "\"w: s\""];
+                v.push(":=".into());
+                if ty.starts_with("ARRAY") {
+                    v.push("[".into());
+                    for i in 0..self.rng.gen_range(1..4) {
+                        if i > 0 {
+                            v.push(",".into());
+                        }
+                        v.push(TRICKY.choose(self.rng).unwrap().to_string());
+                    }
+                    v.push("]".into());
+                } else {
+                    v.push(TRICKY.choose(self.rng).unwrap().to_string());
+                }
+                tricky = true;
+            } else if self.rng.gen_bool(0.4) {
                 v.push(":=".into());
                 v.push(self.lit());
             }
             v.push(";".into());
+            if tricky && self.rng.gen_bool(0.6) {
+                // break right after ":=" / "[" / "," so that the literal starts a line
+                let cuts: Vec<usize> = v.iter().enumerate().filter(|(_, t)| matches!(t.as_str(), ":=" | "[" | ",")).map(|(i, _)| i + 1).collect();
+                let at = *cuts.choose(self.rng).unwrap();
+                let rest = v.split_off(at);
+                let first = self.join(&v);
+                self.push(first);
+                v = rest;
+            }
             self.emit(v);
             if self.rng.gen_bool(0.1) {
                 self.lines.push(String::new());
